@@ -278,15 +278,24 @@ pub fn run(args: &Args) {
     let get_choices: Vec<Vec<i64>> = vec![vec![], vec![0], vec![1], vec![0, 1]];
     let per_tick: Vec<(Vec<KV>, Vec<i64>)> =
         inc_choices.iter().flat_map(|i| get_choices.iter().map(move |g| (i.clone(), g.clone()))).collect();
+    // thorough tier: a fourth tick (614 656 scripts per service and client mode)
+    let fourth: Vec<Option<&(Vec<KV>, Vec<i64>)>> =
+        if args.tier == Tier::Thorough { per_tick.iter().map(Some).collect() } else { vec![None] };
     if args.tier != Tier::Miri {
         for f in &FAMILIES {
             for t0 in &per_tick {
                 for t1 in &per_tick {
                     for t2 in &per_tick {
-                        for react in [false, true] {
-                            let incs = vec![t0.0.clone(), t1.0.clone(), t2.0.clone()];
-                            let gets = vec![t0.1.clone(), t1.1.clone(), t2.1.clone()];
-                            check_case(&mut rep, &mk(f, incs, gets, vec![react; 6]));
+                        for t3 in &fourth {
+                            for react in [false, true] {
+                                let mut incs = vec![t0.0.clone(), t1.0.clone(), t2.0.clone()];
+                                let mut gets = vec![t0.1.clone(), t1.1.clone(), t2.1.clone()];
+                                if let Some(x) = t3 {
+                                    incs.push(x.0.clone());
+                                    gets.push(x.1.clone());
+                                }
+                                check_case(&mut rep, &mk(f, incs, gets, vec![react; 8]));
+                            }
                         }
                     }
                 }
@@ -332,7 +341,7 @@ pub fn run(args: &Args) {
     rep.finish(
         "Counter services (keyed value_counts, keyed sum, single count, single count behind yield_atomic; plus \
          the two documented non-atomic variants as controls) compiled by generate_embedded. Scripts: (A) every \
-         one of the 3-tick scripts over 2 keys with <= 2 increments and any \
+         one of the 3-tick (thorough: also 4-tick) scripts over 2 keys with <= 2 increments and any \
          subset of gets per tick, with the reactive client off and on; (B) random scripts of 2-8 ticks, <= 4 \
          increments and <= 3 gets per tick, 1-3 keys, reactive client on for a random half of the \
          acknowledgements. The client issues gets at tick starts and from inside the acknowledgement callback; \
